@@ -118,7 +118,7 @@ class Sim:
         return 0 if l is None else l[1] + 1
 
 
-def gen_history(rnd, nops, p_reject=0.12, p_boundary=0.15, flush_every=None, reads=True, allow_limits=False, max_batch=4, noop_purge=True):
+def gen_history(rnd, nops, p_reject=0.12, p_boundary=0.15, flush_every=None, reads=True, allow_limits=False, max_batch=4, noop_purge=True, index_limit_rejects=False):
     """Returns a list of op strings (without the trailing observation ops)."""
     s = Sim()
     ops = []
@@ -137,9 +137,14 @@ def gen_history(rnd, nops, p_reject=0.12, p_boundary=0.15, flush_every=None, rea
         last = s.last()
         if r < p_reject:
             # an operation the specification refuses
-            k = rnd.randrange(5)
+            k = rnd.randrange(7 if index_limit_rejects else 5)
             stats["rejected"] += 1
-            if k == 0 and s.vote is not None and s.vote > (0, 0):
+            if k == 5:
+                # a purge the crate refuses outright (index u64::MAX can not be stored)
+                ops.append("P %d 18446744073709551615" % (last[0] if last else s.term))
+            elif k == 6:
+                ops.append("A %d 18446744073709551615 %s" % (last[0] if last else s.term, hx(rand_payload(rnd))))
+            elif k == 0 and s.vote is not None and s.vote > (0, 0):
                 v = (s.vote[0], s.vote[1] - 1) if s.vote[1] > 0 else (s.vote[0] - 1, rnd.randint(0, 9))
                 ops.append("V %d %d" % v)
             elif k == 1 and last is not None:
